@@ -785,4 +785,376 @@ theorem step_sum (env : Env) (op : Op) (t : Ref) (a : Actor) (ph : Phase) (fs : 
         hsha r, trivial, by simp [Phase.holds], ?_⟩
       simp [Phase.outcome]
 
+theorem compat_exec (env : Env) (t : Ref) (a : Actor) (ph : Phase) (fs : FS) (c : Call)
+    (hpacked : fs.packed = none) (hsha : ∀ r, IsSha (fs.loose r)) (hcons : ph.cons (fs.loose t)) :
+    Compat t ph c (exec env fs a c).2 (fs.loose t) := by
+  cases c with
+  | openR r => exact ⟨hcons, hsha t, hsha r, fun h => by subst h; rfl⟩
+  | statR r => exact ⟨hcons, hsha t, fun h => by subst h; rfl⟩
+  | lstatR r => exact ⟨hcons, hsha t, fun h => by subst h; rfl⟩
+  | removeR r =>
+    refine ⟨hcons, hsha t, fun h => ?_⟩
+    subst h
+    simp only [exec]
+    cases fs.loose r <;> rfl
+  | statP => exact ⟨hcons, hsha t, by simp only [exec, hpacked]; rfl⟩
+  | openRP => exact ⟨hcons, hsha t, by simp only [exec, hpacked]; rfl⟩
+  | _ => exact ⟨hcons, hsha t⟩
+
+theorem specRun_append (m0 : Ref → Option Val) (l1 l2 : List LinEv) :
+    specRun m0 (l1 ++ l2) = match specRun m0 l1 with
+      | some m => specRun m l2
+      | none => none := by
+  induction l1 generalizing m0 with
+  | nil => simp [specRun]
+  | cons e es ih =>
+    simp only [List.cons_append, specRun]
+    cases specStep m0 e with
+    | none => rfl
+    | some m' => exact ih m'
+
+theorem linEvent_mem {a : Actor} {op : Op} {ph ph' : Phase} {e : LinEv} (h : e ∈ linEvent a op ph ph') :
+    e.actor = a ∧ e.op = op := by
+  unfold linEvent at h
+  split at h
+  · simp only [List.mem_singleton] at h
+    subst h
+    exact ⟨rfl, rfl⟩
+  · simp at h
+
+theorem settle_nil (env : Env) (vr : Variant) (p : Prog) (outs : List Outcome) :
+    (settle env vr [] p outs).prog = p ∧ (settle env vr [] p outs).todo = [] ∧
+    (settle env vr [] p outs).outs = match p with
+      | .ret o _ => outs ++ [o]
+      | .call _ _ => outs := by
+  cases p <;> simp [settle]
+
+/-- The forward-simulation invariant. -/
+structure Inv (m0 : Ref → Option Val) (ops : List Op) (s : IState) : Prop where
+  lenA : s.cfg.actors.length = ops.length
+  packed : s.cfg.fs.packed = none
+  nosym : ∀ r, IsSha (s.cfg.fs.loose r)
+  lockOwner : ∀ r a, s.cfg.fs.lock r = some a →
+    ∃ op, ops[a]? = some op ∧ (s.phs a).holds = true ∧ op.target = r
+  holdsLock : ∀ a op, ops[a]? = some op → (s.phs a).holds = true → s.cfg.fs.lock op.target = some a
+  act : ∀ a op st, ops[a]? = some op → s.cfg.actors[a]? = some st →
+    st.todo = [] ∧ Disc op op.target (s.phs a) st.prog ∧ (s.phs a).cons (s.cfg.fs.loose op.target) ∧
+    (∀ o c, st.prog = .ret o c → st.outs = [o]) ∧ (∀ c k, st.prog = .call c k → st.outs = [])
+  logOut : ∀ a op, ops[a]? = some op →
+    match (s.phs a).outcome with
+    | some o => ∃ e, e ∈ s.log ∧ e.actor = a ∧ e.op = op ∧ e.out = o
+    | none => ∀ e, e ∈ s.log → e.actor ≠ a
+  spec : ∃ m, specRun m0 s.log = some m ∧ ∀ r, m r = s.cfg.fs.loose r
+
+theorem inv_step (env : Env) (vr : Variant) (m0 : Ref → Option Val) (ops : List Op) (s s' : IState) (a : Actor)
+    (hinv : Inv m0 ops s) (hstep : istep env vr ops s a = some s') : Inv m0 ops s' := by
+  unfold istep at hstep
+  cases hst : s.cfg.actors[a]? with
+  | none => simp [hst] at hstep
+  | some st =>
+  cases hop : ops[a]? with
+  | none => simp [hst, hop] at hstep
+  | some op =>
+  cases hprog : st.prog with
+  | ret o c => simp [hst, hop, hprog] at hstep
+  | call c k =>
+  simp only [hst, hop, hprog, Option.some.injEq] at hstep
+  subst hstep
+  obtain ⟨htodo, hdisc, hcons, _, houts⟩ := hinv.act a op st hop hst
+  rw [hprog] at hdisc
+  obtain ⟨hpre, hcont⟩ := disc_call.mp hdisc
+  have hhold : (s.phs a).holds = true → s.cfg.fs.lock op.target = some a := hinv.holdsLock a op hop
+  have hsum := step_sum env op op.target a (s.phs a) s.cfg.fs c hpre hinv.packed hinv.nosym hcons hhold
+  have hcompat := compat_exec env op.target a (s.phs a) s.cfg.fs c hinv.packed hinv.nosym hcons
+  have hdisc' := hcont _ _ hcompat
+  have halt : a < s.cfg.actors.length := by
+    have := List.getElem?_eq_some_iff.mp hst
+    exact this.1
+  -- abbreviations
+  generalize hph' : nextPhase op op.target (s.phs a) c (exec env s.cfg.fs a c).2 (s.cfg.fs.loose op.target) = ph' at *
+  generalize hfs' : (exec env s.cfg.fs a c).1 = fs' at *
+  refine ⟨?_, ?_, ?_, ?_, ?_, ?_, ?_, ?_⟩
+  · simp [List.length_set, hinv.lenA]
+  · exact hsum.packed
+  · intro r
+    by_cases hr : r = op.target
+    · subst hr; exact hsum.isSha
+    · rw [(hsum.frame r hr).1]; exact hinv.nosym r
+  · -- lockOwner
+    intro r b hl
+    by_cases hr : r = op.target
+    · subst hr
+      rw [hsum.lockT] at hl
+      by_cases h' : ph'.holds = true
+      · simp only [h', if_true, Option.some.injEq] at hl
+        subst hl
+        exact ⟨op, hop, by simp [h'], rfl⟩
+      · simp only [h', Bool.false_eq_true, if_false] at hl
+        by_cases h : (s.phs a).holds = true
+        · simp [h] at hl
+        · simp only [h, Bool.false_eq_true, if_false] at hl
+          obtain ⟨opb, hopb, hhb, htb⟩ := hinv.lockOwner _ b hl
+          have hba : b ≠ a := by
+            intro e; subst e; exact h hhb
+          exact ⟨opb, hopb, by simp [hba, hhb], htb⟩
+    · rw [(hsum.frame r hr).2] at hl
+      obtain ⟨opb, hopb, hhb, htb⟩ := hinv.lockOwner _ b hl
+      have hba : b ≠ a := by
+        intro e; subst e
+        rw [hop] at hopb
+        cases hopb
+        exact hr htb.symm
+      exact ⟨opb, hopb, by simp [hba, hhb], htb⟩
+  · -- holdsLock
+    intro b opb hopb hhb
+    by_cases hba : b = a
+    · subst hba
+      rw [hop] at hopb
+      cases hopb
+      simp only [if_true] at hhb
+      rw [hsum.lockT, hhb]
+      rfl
+    · simp only [hba, if_false] at hhb
+      have hold := hinv.holdsLock b opb hopb hhb
+      by_cases ht : opb.target = op.target
+      · rw [ht] at hold ⊢
+        rw [hsum.lockT]
+        by_cases h' : ph'.holds = true
+        · by_cases h : (s.phs a).holds = true
+          · have := hhold h
+            rw [this] at hold
+            cases hold
+            exact absurd rfl hba
+          · have h : (s.phs a).holds = false := by simpa using h
+            have := hsum.acquire h h'
+            rw [this] at hold
+            cases hold
+        · by_cases h : (s.phs a).holds = true
+          · have := hhold h
+            rw [this] at hold
+            cases hold
+            exact absurd rfl hba
+          · simp [h', h, hold]
+      · rw [(hsum.frame _ ht).2]
+        exact hold
+  · -- act
+    intro b opb stb hopb hstb
+    by_cases hba : b = a
+    · subst hba
+      rw [hop] at hopb
+      cases hopb
+      simp only [List.getElem?_set_self halt, Option.some.injEq] at hstb
+      subst hstb
+      have hs := settle_nil env vr (k (exec env s.cfg.fs b c).2) st.outs
+      rw [htodo]
+      refine ⟨hs.2.1, ?_, ?_, ?_, ?_⟩
+      · simp only [if_true]
+        rw [hs.1]
+        exact hdisc'
+      · simp only [if_true]
+        exact hsum.cons
+      · intro o c' hp
+        rw [hs.1] at hp
+        rw [hs.2.2, hp, houts c k hprog]
+        rfl
+      · intro c' k' hp
+        rw [hs.1] at hp
+        rw [hs.2.2, hp, houts c k hprog]
+    · have hab : a ≠ b := fun e => hba e.symm
+      simp only [List.getElem?_set_ne hab] at hstb
+      obtain ⟨h1, h2, h3, h4, h5⟩ := hinv.act b opb stb hopb hstb
+      refine ⟨h1, by simpa [hba] using h2, ?_, h4, h5⟩
+      simp only [hba, if_false]
+      by_cases ht : opb.target = op.target
+      · cases hpb : s.phs b with
+        | locked kb =>
+          have hhb : (s.phs b).holds = true := by simp [hpb, Phase.holds]
+          have hold := hinv.holdsLock b opb hopb hhb
+          rw [ht] at hold
+          by_cases h : (s.phs a).holds = true
+          · have := hhold h
+            rw [this] at hold
+            cases hold
+            exact absurd rfl hba
+          · have h : (s.phs a).holds = false := by simpa using h
+            rw [ht, hsum.noLockNoWrite h, ← ht, ← hpb]
+            exact h3
+        | outside => trivial
+        | lockedDone o => trivial
+        | finished o => trivial
+      · rw [(hsum.frame _ ht).1]
+        exact h3
+  · -- logOut
+    intro b opb hopb
+    by_cases hba : b = a
+    · subst hba
+      rw [hop] at hopb
+      cases hopb
+      have hold := hinv.logOut b op hop
+      have hlin := hsum.lin
+      simp only [if_true]
+      unfold linEvent
+      cases h1 : (s.phs b).outcome with
+      | none =>
+        rw [h1] at hold hlin
+        cases h2 : ph'.outcome with
+        | none =>
+          simp only [List.append_nil]
+          exact hold
+        | some o =>
+          exact ⟨⟨b, op, o⟩, by simp, rfl, rfl, rfl⟩
+      | some o =>
+        rw [h1] at hold hlin
+        cases h2 : ph'.outcome with
+        | none => rw [h2] at hlin; exact hlin.elim
+        | some o' =>
+          rw [h2] at hlin
+          obtain ⟨e, he, h⟩ := hold
+          simp only [List.append_nil]
+          rw [hlin.1]
+          exact ⟨e, he, h⟩
+    · simp only [hba, if_false]
+      have hold := hinv.logOut b opb hopb
+      cases h1 : (s.phs b).outcome with
+      | none =>
+        rw [h1] at hold
+        intro e he
+        rcases List.mem_append.mp he with he | he
+        · exact hold e he
+        · rw [(linEvent_mem he).1]
+          exact fun e => hba e.symm
+      | some o =>
+        rw [h1] at hold
+        obtain ⟨e, he, h⟩ := hold
+        exact ⟨e, List.mem_append.mpr (Or.inl he), h⟩
+  · -- spec
+    obtain ⟨m, hm, hmr⟩ := hinv.spec
+    have hlin := hsum.lin
+    rw [specRun_append, hm]
+    unfold linEvent
+    have frame : fs'.loose op.target = s.cfg.fs.loose op.target → ∀ r, m r = fs'.loose r := by
+      intro h r
+      by_cases hr : r = op.target
+      · subst hr; rw [h]; exact hmr _
+      · rw [(hsum.frame r hr).1]; exact hmr r
+    cases h1 : (s.phs a).outcome with
+    | some o =>
+      rw [h1] at hlin
+      cases h2 : ph'.outcome with
+      | none => rw [h2] at hlin; exact hlin.elim
+      | some o' =>
+        rw [h2] at hlin
+        exact ⟨m, rfl, frame hlin.2⟩
+    | none =>
+      rw [h1] at hlin
+      cases h2 : ph'.outcome with
+      | none =>
+        rw [h2] at hlin
+        exact ⟨m, rfl, frame hlin⟩
+      | some o =>
+        rw [h2] at hlin
+        simp only [specRun, specStep]
+        by_cases hex : o.isExc = true
+        · simp only [hex, if_true] at hlin ⊢
+          exact ⟨m, rfl, frame hlin⟩
+        · simp only [hex, Bool.false_eq_true, if_false] at hlin ⊢
+          rw [hmr op.target, hlin]
+          simp only [if_true]
+          refine ⟨_, rfl, fun r => ?_⟩
+          by_cases hr : r = op.target
+          · subst hr; simp
+          · simp only [upd, hr, if_false]
+            rw [(hsum.frame r hr).1]; exact hmr r
+
+/-! ### runs -/
+
+def IState.init (env : Env) (vr : Variant) (fs : FS) (ops : List Op) : IState :=
+  { cfg := Config.init env vr fs (ops.map fun op => [op]), phs := fun _ => .outside, log := [] }
+
+def irun (env : Env) (vr : Variant) (ops : List Op) (s : IState) : List Actor → IState
+  | [] => s
+  | a :: rest =>
+    match istep env vr ops s a with
+    | some s' => irun env vr ops s' rest
+    | none => irun env vr ops s rest
+
+theorem inv_irun (env : Env) (vr : Variant) (m0 : Ref → Option Val) (ops : List Op) (s : IState)
+    (sched : List Actor) (hinv : Inv m0 ops s) : Inv m0 ops (irun env vr ops s sched) := by
+  induction sched generalizing s with
+  | nil => exact hinv
+  | cons a rest ih =>
+    simp only [irun]
+    cases h : istep env vr ops s a with
+    | none => exact ih s hinv
+    | some s' => exact ih s' (inv_step env vr m0 ops s s' a hinv h)
+
+/-- the ghost bookkeeping does not influence the run: `istep` projects to the model's `step` -/
+theorem istep_cfg (env : Env) (vr : Variant) (ops : List Op) (s : IState) (a : Actor)
+    (hlen : s.cfg.actors.length = ops.length) :
+    (istep env vr ops s a).map (·.cfg) = (step env vr s.cfg a).map (·.1) := by
+  unfold istep step
+  cases hst : s.cfg.actors[a]? with
+  | none => simp
+  | some st =>
+    have halt : a < ops.length := by
+      have h1 : a < s.cfg.actors.length := (List.getElem?_eq_some_iff.mp hst).1
+      rw [hlen] at h1
+      exact h1
+    have : ops[a]? = some ops[a] := List.getElem?_eq_getElem halt
+    rw [this]
+    simp only
+    generalize st.prog = p
+    cases p <;> simp
+
+theorem irun_cfg (env : Env) (vr : Variant) (m0 : Ref → Option Val) (ops : List Op) (s : IState)
+    (sched : List Actor) (hinv : Inv m0 ops s) :
+    (irun env vr ops s sched).cfg = runSched env vr s.cfg sched := by
+  induction sched generalizing s with
+  | nil => rfl
+  | cons a rest ih =>
+    have hc := istep_cfg env vr ops s a hinv.lenA
+    simp only [irun, runSched]
+    cases h : istep env vr ops s a with
+    | none =>
+      rw [h] at hc
+      cases h2 : step env vr s.cfg a with
+      | none => exact ih s hinv
+      | some p => rw [h2] at hc; simp at hc
+    | some s' =>
+      rw [h] at hc
+      cases h2 : step env vr s.cfg a with
+      | none => rw [h2] at hc; simp at hc
+      | some p =>
+        rw [h2] at hc
+        simp only [Option.map_some, Option.some.injEq] at hc
+        obtain ⟨cfg', c⟩ := p
+        simp only at hc
+        rw [ih s' (inv_step env vr m0 ops s s' a hinv h), hc]
+
+theorem inv_init (env : Env) (vr : Variant) (loose0 : Ref → Option Val) (ops : List Op)
+    (hsha : ∀ r, IsSha (loose0 r)) (hops : ∀ op, op ∈ ops → LooseOp op) :
+    Inv loose0 ops (IState.init env vr (FS.init loose0 none) ops) := by
+  refine ⟨?_, rfl, hsha, ?_, ?_, ?_, ?_, ⟨loose0, rfl, fun _ => rfl⟩⟩
+  · simp [IState.init, Config.init]
+  · intro r a h
+    simp [IState.init, Config.init, FS.init] at h
+  · intro a op _ h
+    simp [IState.init, Phase.holds] at h
+  · intro a op st hop hst
+    simp only [IState.init, Config.init, List.map_map, List.getElem?_map, hop, Option.map_some,
+      Function.comp, Option.some.injEq] at hst
+    subst hst
+    have hl : LooseOp op := hops op (List.mem_of_getElem? hop)
+    refine ⟨rfl, ?_, trivial, ?_, ?_⟩
+    · simp only [ActorSt.init, sStart, IState.init]
+      refine disc_call.mpr ⟨trivial, fun _ _ _ => ?_⟩
+      simp only [nextPhase]
+      exact compile_disc env vr op hl Cache.empty cacheOK_empty
+    · intro o c h
+      simp [ActorSt.init, sStart] at h
+    · intro c k _
+      rfl
+  · intro a op _
+    simp [IState.init, Phase.outcome]
+
 end Dulwich.RefsFS
